@@ -161,6 +161,10 @@ func (m Meta) GetUint64(key []byte) (uint64, bool) {
 	if !ok {
 		return 0, false
 	}
+	if len(value) < 8 {
+		// not a uint64 (the metadata comes from a file)
+		return 0, false
+	}
 	return decodeUint64(value), true
 }
 
